@@ -117,11 +117,20 @@ func c13Target(cw *c13World, name string) (*sim.Node, error) {
 // inconclusive reason.
 func c13Run(cw *c13World, c c13Case, name string) (sig, msg string, nontrivial bool, inconclusive string) {
 	w := cw.w
+	started := time.Now() // the node's own 2 s retry ticker starts with the node
 	tgt, err := c13Target(cw, name)
 	if err != nil {
 		return "", "", false, "target: " + err.Error()
 	}
 	book := tgt.Book
+	// retries the harness triggered per parked vertex (the head of the parked list is what a trigger pops)
+	myRetry := map[ref.Hash]int{}
+	retryOne := func() error {
+		if pl := book.VerifParkedList(); len(pl) > 0 {
+			myRetry[pl[0].Hash]++
+		}
+		return sim.GuardT(sim.CallTimeout, func() error { book.VerifRetryOne(bg); return nil })
+	}
 	inV := map[ref.Hash]bool{}
 	for _, v := range cw.V {
 		inV[v.Hash] = true
@@ -203,7 +212,7 @@ func c13Run(cw *c13World, c c13Case, name string) (sig, msg string, nontrivial b
 			if len(pl) == 0 || pl[0].Repeated >= 24 {
 				continue // stay inside the promised bounds
 			}
-			if g := sim.GuardT(sim.CallTimeout, func() error { book.VerifRetryOne(bg); return nil }); g != nil {
+			if g := retryOne(); g != nil {
 				return "", "", nontrivial, "retry: " + g.Error()
 			}
 		case "p":
@@ -248,13 +257,10 @@ func c13Run(cw *c13World, c c13Case, name string) (sig, msg string, nontrivial b
 				nontrivial = true
 				p1 := sim.CloneVertex(&pv)
 				book.AddLeaf(bg, &p1) // accepted as a tentative tip: it is validated when something builds on it
-				if g := sim.GuardT(sim.CallTimeout, func() error {
-					for k := 0; k < 4 && len(book.VerifParkedList()) > 0; k++ {
-						book.VerifRetryOne(bg)
+				for k := 0; k < 4 && len(book.VerifParkedList()) > 0; k++ {
+					if g := retryOne(); g != nil {
+						return "", "", nontrivial, "retry: " + g.Error()
 					}
-					return nil
-				}); g != nil {
-					return "", "", nontrivial, "retry: " + g.Error()
 				}
 			case 0: // bad sealing signature on a real vertex of V
 				if len(cw.V) == 0 {
@@ -297,7 +303,7 @@ func c13Run(cw *c13World, c c13Case, name string) (sig, msg string, nontrivial b
 		if len(book.VerifParkedList()) == 0 {
 			break
 		}
-		if g := sim.GuardT(sim.CallTimeout, func() error { book.VerifRetryOne(bg); return nil }); g != nil {
+		if g := retryOne(); g != nil {
 			return "", "", nontrivial, "retry: " + g.Error()
 		}
 	}
@@ -312,6 +318,13 @@ func c13Run(cw *c13World, c c13Case, name string) (sig, msg string, nontrivial b
 	for _, v := range cw.V {
 		got, ok := s.Live[v.Hash]
 		if !ok {
+			// The node may drop a parked vertex after 25 retries. Retries come from the harness (counted per vertex) and from
+			// the node's own ticker (one pop every 2 s of wall clock, which on a loaded machine is many per case): when the
+			// two together may have reached the bound for this vertex, its loss is within the node's rights.
+			ticks := int(time.Since(started)/(2*time.Second)) + 1
+			if myRetry[v.Hash]+ticks+2 >= 25 {
+				return "", "", nontrivial, fmt.Sprintf("vertex %x is missing, but it may have used up its 25 retries (%d by the harness, up to %d by the node's ticker)", v.Hash[:4], myRetry[v.Hash], ticks)
+			}
 			return "vertex-lost", fmt.Sprintf("vertex %x of the valid history never made it into the ledger although every parent arrived (parents-first delivery admits it)", v.Hash[:4]), nontrivial, ""
 		}
 		want := map[string]struct{}{}
@@ -433,8 +446,8 @@ func TestC13(t *testing.T) {
 	t.Run("random", func(t *testing.T) {
 		caseNo := 0
 		rapid.Check(t, func(rt *rapid.T) {
-			if worldsMade >= maxWorlds() {
-				rt.Skip("world budget used up")
+			if outOfBudget(st) {
+				return
 			}
 			worldsMade++
 			caseNo++
